@@ -285,7 +285,13 @@ func dump(sb *[]byte, v reflect.Value, depth int) {
 // array, back to back, each slice keeping spare capacity that runs into its successor's bytes — the
 // layout a zero-copy parser or a caller slicing one request buffer produces. It returns the number
 // of slices moved. An encoder must neither depend on nor write through that layout.
-func Rehome(x any) int {
+func Rehome(x any) int { return RehomeOrder(x, false) }
+
+// RehomeOrder is Rehome with a choice of layout: declared order (each slice is followed by the slice that
+// an encoder appends NEXT - an in-place append then rewrites bytes with themselves and stays invisible), or
+// "rotated" (the first slice first, the others in reverse order, so that what lies behind a slice is NOT
+// what gets appended to it).
+func RehomeOrder(x any, rotated bool) int {
 	var slices []reflect.Value
 	var walk func(v reflect.Value, depth int)
 	walk = func(v reflect.Value, depth int) {
@@ -322,6 +328,11 @@ func Rehome(x any) int {
 	walk(reflect.ValueOf(x), 0)
 	if len(slices) == 0 {
 		return 0
+	}
+	if rotated && len(slices) > 2 {
+		for i, j := 1, len(slices)-1; i < j; i, j = i+1, j-1 {
+			slices[i], slices[j] = slices[j], slices[i]
+		}
 	}
 	total := 0
 	for _, s := range slices {
